@@ -310,6 +310,9 @@ def run(chk):
     # double constants (folded quotients and literals): a text format has to read back the very same double
     srcs += ["0.1 / 7u", "( 5 ? 1e-7 : d0 ) / ( 100.25 / 1.5 )", "1.0 / 3.0", "2.0 / 3.0", "0.1 + 0.2", "1e23", "5e-324", "1.7976931348623157e308",
              "2.2250738585072014e-308", "4.35", "0.000001 / 3.0", "123456789.123456789 / 7.0", "[0.1 / 7u, 1.0 / 49.0, 9007199254740993.0]"]
+    # negative zero as a folded constant, observed through a division and through string()
+    srcs += ["x / (0.0 * (0.0 - 1.0))", "x / (0.0 / (0.0 - 5.0))", "string(double('-0.0') * x)", "[0.0 * (0.0 - 1.0), 0.0][0] * x",
+             "x / double('-0')", "1.0 / (y * (0.0 * (0.0 - 2.0)))", "x / (0.0 * 1.0)", "string(0.0 * (0.0 - 1.0))"]
     for _ in range(150 if quick else 3000):
         a = rng.choice([rng.random(), rng.uniform(-1e6, 1e6), rng.random() * 10 ** rng.randrange(-300, 300), float(rng.randrange(1, 1000))])
         b = rng.choice([float(rng.randrange(1, 100)), rng.random() + 0.5, rng.uniform(1, 1e9)])
